@@ -362,7 +362,7 @@ inline int worker_main(Engine& eng, int argc, char** argv) {
             if (c < 3 || until != ~0ull) emit_violation("V", i, seed, sweep, plan, rr);   // at most 3 full plans per signature per worker
             ++c;
             // every hang costs its full time limit: after a few of them this worker has established the violation and stops early
-            if (rr.v.sig.size() > 1 && rr.v.sig[1] == "hang" && ++nhangs >= 6 && until == ~0ull) { std::printf("O worker stopped early after %llu hanging calls\n", (unsigned long long)nhangs); break; }
+            if (rr.v.sig.size() > 1 && rr.v.sig[1] == "hang" && ++nhangs >= 3 && until == ~0ull) { std::printf("O worker stopped early after %llu hanging calls\n", (unsigned long long)nhangs); break; }
         }
         if (emitted_samples < samples && !rr.v.set && (sweep ? (i % 97 == 0) : true) ) {
             std::vector<std::string> lines; lines.push_back(plan.head.text()); for (auto& s : plan.steps) lines.push_back(s.text());
